@@ -19,7 +19,7 @@ RULE = ('cases: every grid-world shape with extents 0..N per axis (DiscreteWorld
         'is the coordinate; get_cell(x,y,z) is that very row (row label = id, pos and the distinguishing cell-component values equal '
         'to the coordinate\'s); outside coordinates raise IndexError. Non-trivial shape: >=2 cells; distinct by (world class, extents).')
 ASSUMPTIONS = ['exhaustive only for extents <= N', 'cell ids are obtained with discrete_grid_pos_to_id(x, y, width, z, height) as documented']
-FLOORS = {'quick': {'shapes': 72, 'cells_checked': 720, 'outside_probes': 2000, 'cells_rechecked_after_update': 700, 'wrapping_shapes': 100, 'big_shapes': 5, 'big_cells': 20000, 'cells_rechecked_after_regeneration': 500, 'shapes_with_zero_axis': 30, 'line_worlds': 2,
+FLOORS = {'quick': {'id_by_keywords': 1593, 'id_with_defaults': 1579, 'id_numpy_coordinates': 3031, 'cell_y_omitted_z_keyword': 709, 'cell_numpy_coordinates': 1804, 'cell_defaults': 787, 'cell_by_keywords': 1743, 'shapes': 72, 'cells_checked': 720, 'outside_probes': 2000, 'cells_rechecked_after_update': 700, 'wrapping_shapes': 72, 'big_shapes': 2, 'big_cells': 12566, 'cells_rechecked_after_regeneration': 500, 'shapes_with_zero_axis': 30, 'line_worlds': 2,
                     'grid_worlds': 8, 'reach:Environments.DiscreteWorld.get_cell': 2700, 'reach:Environments.discrete_grid_pos_to_id': 1400},
           'thorough': {'shapes': 500, 'cells_checked': 20000}}
 EXHAUSTIVE = {'quick': 'all grid shapes with extents 0..4 (125 DiscreteWorld, 4 LineWorld, 16 GridWorld) non-wrapping and wrapping, all in-range and just-outside coordinates',
@@ -69,6 +69,66 @@ def code(pos):
     return pos[0] + 100 * pos[1] + 10000 * pos[2]
 
 
+def spell_id(envs, rng, ctx, x, y, z, width, height):
+    """discrete_grid_pos_to_id(x, y, width, z, height) through one of its spellings: positional, keywords, defaults for zeros, and the
+    coordinates as numpy integers (what np.argwhere / array indexing hand out)."""
+    import numpy as np
+    k = rng.randrange(6)
+    if k == 0 or (k >= 4 and (x, y, z) == (0, 0, 0)):
+        return envs.discrete_grid_pos_to_id(x, y, width, z, height)
+    if k == 1:
+        ctx.count('id_by_keywords')
+        return envs.discrete_grid_pos_to_id(height=height, z=z, width=width, y=y, x=x)
+    if k == 2:
+        ctx.count('id_with_defaults')
+        kw = {}
+        if y:
+            kw['y'] = y
+        if z:
+            kw['z'] = z
+        if width:
+            kw['width'] = width
+        if height:
+            kw['height'] = height
+        return envs.discrete_grid_pos_to_id(x, **kw)
+    if k == 3:
+        ctx.count('id_mixed')
+        return envs.discrete_grid_pos_to_id(x, y, width, z=z, height=height)
+    ctx.count('id_numpy_coordinates')
+    T = np.int64 if k == 4 else np.intp
+    return int(envs.discrete_grid_pos_to_id(T(x), T(y), width, T(z), height))
+
+
+def spell_cell(env, rng, ctx, x, y, z):
+    """get_cell(x, y, z) through one of its spellings (the omitted coordinates are the zero ones only)."""
+    import numpy as np
+    k = rng.randrange(7)
+    if k == 0:
+        return env.get_cell(x, y, z)
+    if k == 1:
+        ctx.count('cell_by_keywords')
+        return env.get_cell(z=z, x=x, y=y)
+    if k == 2:
+        ctx.count('cell_numpy_coordinates')
+        return env.get_cell(np.int64(x), np.int64(y), np.int64(z))
+    if k == 3 and y == 0:
+        ctx.count('cell_y_omitted_z_keyword')
+        return env.get_cell(x, z=z)
+    if k == 4 and z == 0:
+        ctx.count('cell_defaults')
+        return env.get_cell(x, y) if y else env.get_cell(x)
+    if k == 5 and x == 0 == y:
+        ctx.count('cell_defaults')
+        return env.get_cell(0, z=z)
+    if k == 6:
+        import warnings
+        with warnings.catch_warnings():
+            warnings.simplefilter('ignore')
+            ctx.count('cell_deprecated_alias')
+            return env.getCell(x, y, z)
+    return env.get_cell(x, y, z)
+
+
 def run_case(ctx, case):
     import random as _r
     rng_ = _r.Random(str(case))
@@ -84,7 +144,7 @@ def run_case(ctx, case):
     for z in rng_ax[2]:
         for y in rng_ax[1]:
             for x in rng_ax[0]:
-                i = envs.discrete_grid_pos_to_id(x, y, env.width, z, env.height)
+                i = spell_id(envs, rng_, ctx, x, y, z, env.width, env.height)
                 ctx.ev()
                 ctx.count('cells_checked')
                 if not (isinstance(i, int) and 0 <= i < ncells):
@@ -94,7 +154,7 @@ def run_case(ctx, case):
                 seen[i] = (x, y, z)
                 if tuple(table[i]) != (x, y, z):
                     raise CaseViolation(f'position table maps id {i} to {table[i]}, not to ({x},{y},{z})', shape=case)
-                row = env.get_cell(x, y, z)
+                row = spell_cell(env, rng_, ctx, x, y, z)
                 if tuple(row['pos']) != (x, y, z) or row['code'] != code((x, y, z)) or row['tag'] != f'{x}:{y}:{z}' or row.name != i:
                     raise CaseViolation(f'get_cell({x},{y},{z}) returned row {row.name} pos={row["pos"]} code={row["code"]}', shape=case)
     check(len(seen) == ncells, 'ids do not cover 0..cells-1', shape=case)
@@ -139,7 +199,7 @@ def run_case(ctx, case):
             for o in combos:
                 c = list(o)
                 c.insert(k, bad)
-                expect_raises(IndexError, f'get_cell{tuple(c)} outside shape {case}', env.get_cell, *c)
+                expect_raises(IndexError, f'get_cell{tuple(c)} outside shape {case}', spell_cell, env, rng_, ctx, *c)
                 ctx.ev()
                 ctx.count('outside_probes')
     ctx.count('shapes')
